@@ -267,6 +267,8 @@ class TorchOps(Ops):
             order = base.order
             if ist is not None and ist < 0 and order is not None:
                 order = (order[0], "reversed" if order[1] == "same" else "mixed")
+            elif order is not None and lo is None and ihi == -1 and ist is None:
+                order = (order[0], order[1] + "[:-1]")
             elif order is not None and (lo is not None or hi is not None):
                 order = (order[0], order[1] + "+sliced")
             e = base.elem if base.items is None else self.set_elem(SetV(items=base.items))
